@@ -11,12 +11,12 @@ from __future__ import annotations
 
 import ast
 
-from ..absint import Config, Interp
+from ..absint import Config, Interp, RaiseSig
 from ..harness import rule
 from ..index import AnalysisError, text
 from ..models import RECV_LOOP, BASE_STUBS, explore_recv, mk_websocket, recv_config
-from ..rulekit import isym, new_obj, path_text
-from ..values import C, FALSE, INF, NONE, TRUE, App, Cls, Ext, Ref, Sym, Tup
+from ..rulekit import exc_is, isym, new_obj, path_text
+from ..values import C, FALSE, INF, NONE, TRUE, App, Cls, Ext, HObj, Ref, Sym, Tup
 
 W = "_core:WebSocket"
 
@@ -58,6 +58,10 @@ def _send_frame_paths(ctx):
 
     def body(run):
         ws = mk_websocket(I, run)
+        # the connection may have a socket timeout configured (None or a number): code that bounds its wait for the lock by it is explored
+        so = run.cell(ws).fields.get("sock_opt")
+        if isinstance(so, Ref) and "timeout" in run.cell(so).fields:
+            run.cell(so).fields["timeout"] = Sym("cfg.timeout", None)
         run.assume_range(App("len", (Sym("wire", "bytes"),), "int"), 2, INF)
         fr = new_obj(run, "_abnf:ABNF", "frame", get_mask_key=Ext("os.urandom"), fin=isym(run, "fin", 0, 1), opcode=isym(run, "opcode", 0, 15),
                      rsv1=C(0), rsv2=C(0), rsv3=C(0), mask_value=C(1), data=Sym("payload", "bytes"))  # any frame: data and control opcodes alike
@@ -614,3 +618,100 @@ def r10(ctx):
     ctx.ob(f"{qr}:locks-released-on-every-exit", not leaks_r and bool(outs_r), f"{len(outs_r)} exits: no lock is held afterwards" if not leaks_r else
            f"recv_data_frame ends as {leaks_r[0].kind} {leaks_r[0].exc_class or ''} while still holding a lock", ctx.index.loc(ctx.index.func(qr).node),
            {"path": path_text(leaks_r[0])} if leaks_r else None)
+
+
+def lock_standin_transparent(ctx):
+    """enable_multithread=False replaces the locks by a stand-in written in the package.  The stand-in must be transparent: an
+    exception that leaves the write loop of send_frame (a failed or timed-out transport write) or the receive loop (a timeout)
+    reaches the caller exactly as it does with real locks -- a stand-in whose __exit__ answers true would swallow it, send_frame
+    would then report a frame as written that was not, and a receive timeout would come back as a result."""
+    TO = "_exceptions:WebSocketTimeoutException"
+    stubs = dict(BASE_STUBS)
+    stubs["_abnf:ABNF.format"] = lambda I, run, a, k, n: (run.effect("format", (), node=n), Sym("wire", "bytes"))[1]
+
+    def _send(I, run, args, kwargs, node):
+        k = len([e for e in run.effects if e.name == "_send"])
+        l = isym(run, f"accepted{k}", 0, INF)
+        run.effect("_send", args[1:], kwargs, node=node, ret=l)
+        ch = run.choose(3, I.locof(node), "_send raises")
+        if ch:
+            cn = ("builtins.BrokenPipeError", TO)[ch - 1]
+            run.effect("@fault", (C(cn),), node=node)
+            raise RaiseSig(run.alloc(HObj(cn, {"args": Tup(())})), node)
+        return l
+
+    stubs[f"{W}._send"] = _send
+    I = Interp(ctx.index, Config(stubs=stubs, loop_unroll=2))
+    for mt in (TRUE, FALSE):
+        def body(run, mt=mt):
+            ws = mk_websocket(I, run, enable_multithread=mt)
+            run.assume_range(App("len", (Sym("wire", "bytes"),), "int"), 2, INF)
+            fr = new_obj(run, "_abnf:ABNF", "frame", get_mask_key=Ext("os.urandom"), fin=C(1), opcode=C(1),
+                         rsv1=C(0), rsv2=C(0), rsv3=C(0), mask_value=C(1), data=Sym("payload", "bytes"))
+            return I.call(run, I.getattr(run, ws, "send_frame", None), [fr], {}, None)
+        n = 0
+        bad = None
+        for o in ctx.count_paths(I.explore(body)):
+            faults = [e.args[0].v for e in o.effects if e.name == "@fault"]
+            if not faults:
+                continue
+            n += 1
+            if not (o.kind == "raise" and o.exc_class == faults[-1]):
+                bad = bad or (o, faults[-1])
+        if n == 0:
+            raise AnalysisError("send_frame: no path with a failing transport write explored")
+        ctx.ob(f"{W}.send_frame:enable_multithread={mt.v}:write-failure-reaches-caller", bad is None,
+               f"{n} paths: a transport write that raises leaves send_frame as that exception" if bad is None else
+               f"enable_multithread={mt.v}: the transport write raises {bad[1]} inside the write loop but send_frame ends as {bad[0].kind} {bad[0].exc_class or bad[0].value!r}: "
+               "the caller is told the frame was written (the lock stand-in's __exit__ swallows the exception?)",
+               ctx.index.loc(ctx.index.func(f"{W}.send_frame").node), {"path": path_text(bad[0])} if bad else None)
+
+    def mr(name, node, run):
+        # the timeout strikes at the first read of the call;
+        # a read that succeeded ends the exploration of that path: this rule is about the exception, not about frames
+        k = len([e for e in run.effects if e.name == "recv_strict"])
+        return [TO] if name == "recv_strict" and k == 1 else []
+
+    def stop_after_two(I, run, args, kwargs, node):
+        from ..models import recv_strict_stub
+        from ..absint import CutoffSig
+        if len([e for e in run.effects if e.name == "recv_strict"]) >= 1:
+            raise CutoffSig("lock-transparency: beyond the first read")
+        return recv_strict_stub(I, run, args, kwargs, node)
+
+    Ir = Interp(ctx.index, recv_config(extra_stubs={"_abnf:frame_buffer.recv_strict": stop_after_two}, may_raise=mr))
+    for mt in (TRUE, FALSE):
+        for level in ("recv_data_frame", "recv"):
+            def body2(run, mt=mt, level=level):
+                ws = mk_websocket(Ir, run, skip=TRUE, enable_multithread=mt)
+                fn = Ir.getattr(run, ws, level, None)
+                return Ir.call(run, fn, [FALSE] if level == "recv_data_frame" else [], {}, None)
+            n = 0
+            bad = None
+            for o in ctx.count_paths(Ir.explore(body2)):
+                rs = [e for e in o.effects if e.name == "recv_strict"]
+                if not rs or rs[-1].ret is not None and o.kind != "raise":
+                    pass
+                timed_out = any(d.text == "recv_strict raises" and d.choice > 0 for d in o.decisions)
+                if not timed_out:
+                    continue
+                n += 1
+                if not (o.kind == "raise" and exc_is(Ir, o, TO)):
+                    bad = bad or o
+            if n == 0:
+                raise AnalysisError(f"{level}: no timeout path explored")
+            ctx.ob(f"{W}.{level}:enable_multithread={mt.v}:timeout-reaches-caller", bad is None,
+                   f"{n} paths: a receive timeout leaves {level} as WebSocketTimeoutException" if bad is None else
+                   f"enable_multithread={mt.v}: a receive timeout inside {level} ends as {bad.kind} {bad.exc_class or bad.value!r} instead of WebSocketTimeoutException",
+                   ctx.index.loc(ctx.index.func(f"{W}.{level}").node), {"path": path_text(bad)} if bad else None)
+
+
+@rule("R-C12-11", min_instances=6, title="the lock stand-in of enable_multithread=False is transparent: failures of the write loop and receive timeouts reach the caller as with real locks")
+def r11(ctx):
+    lock_standin_transparent(ctx)
+
+
+@rule("R-C12-12", min_instances=1, title="a receiver that finds no data yet (timeout, would-block of a non-blocking transport) leaves the fragments collected so far in place: the message still reaches exactly one receiver")
+def r12(ctx):
+    from .c03 import r6 as not_yet_leaves_state
+    not_yet_leaves_state(ctx)
